@@ -1058,3 +1058,87 @@ FUNCS['_function.__rmul__'] = {
     'setup': mul_setup, 'scenarios': {'float': {}, 'matrix': {'operand':
                                                                'm11'}},
     'on_outcomes': mul_outcomes('a * f'), 'config': {'unroll': 8}}
+
+
+# ------------------------------------------------------ f / a and f /= a
+# One line each: the work is done by __mul__ / __imul__ (contracts above).
+# Contract at the call: the result is what self.__mul__(1/a) (resp.
+# self.__imul__(1/a)) returns, for a number or a dense 1x1 matrix; only
+# ZeroDivisionError is raised, and only for a = 0.
+class MulResult:
+    abs_object = True
+
+    def __init__(self, method, arg):
+        self.method, self.arg = method, arg
+
+
+_fs_method0 = FSelf.abs_method
+
+
+def _fs_method(self, ex, st, name, args, kwargs, n):
+    if st.ghost.get('division') and name in ('__mul__', '__imul__') and \
+            len(args) == 1 and not kwargs:
+        st.ghost['mulcalls'] = st.ghost.get('mulcalls', ()) + ((name,
+                                                                args[0]),)
+        return MulResult(name, args[0])
+    return _fs_method0(self, ex, st, name, args, kwargs, n)
+
+
+FSelf.abs_method = _fs_method
+
+
+def div_setup(sc):
+    inner = mul_setup(sc)
+
+    def setup(ex, st, fid, fn):
+        inner(ex, st, fid, fn)
+        st.ghost['division'] = True
+    return setup
+
+
+def div_outcomes(opname, method):
+    def on_outcomes(ex, outs):
+        class N:
+            lineno = 0
+            col_offset = 0
+        P = {'prop': 'C11'}
+        a = z3.Real('a')
+        nret = 0
+        for o in outs:
+            st = o.st
+            node = N()
+            if o.kind == 'raise':
+                node.lineno = o.val[2] if len(o.val) > 2 else 0
+                ex.oblige(st, 'binop-refuses', z3.And(z3.BoolVal(
+                    o.val[0] == 'ZeroDivisionError'), a == 0), node,
+                    '%s raises only ZeroDivisionError, for a = 0 (%s)' % (
+                        opname, o.val[0]), extra=P)
+                continue
+            nret += 1
+            calls = st.ghost.get('mulcalls', ())
+            ok = isinstance(o.val, MulResult) and len(calls) == 1 and \
+                calls[0][0] == method and o.val.method == method
+            t = real_of(ex, st, calls[0][1]) if ok else None
+            ex.oblige(st, 'binop-value', z3.And(a != 0, t * a == 1)
+                      if t is not None else z3.BoolVal(False), node,
+                      '%s returns self.%s(1/a), a != 0' % (opname, method),
+                      extra=P)
+        if outs:
+            ex.oblige(outs[0].st, 'covered', z3.BoolVal(nret >= 1), N(),
+                      '%s returns (%d paths)' % (opname, nret), extra=P)
+        return {'paths': len(outs), 'returns': nret}
+    return on_outcomes
+
+
+FUNCS['_function.__truediv__'] = {
+    'setup': div_setup, 'scenarios': {'float': {}, 'matrix': {'operand':
+                                                               'm11'}},
+    'on_outcomes': div_outcomes('f / a', '__mul__'),
+    'config': {'unroll': 8, 'fork_on_zero_division': True,
+               'exact_arith': True}}
+FUNCS['_function.__itruediv__'] = {
+    'setup': div_setup, 'scenarios': {'float': {}, 'matrix': {'operand':
+                                                               'm11'}},
+    'on_outcomes': div_outcomes('f /= a', '__imul__'),
+    'config': {'unroll': 8, 'fork_on_zero_division': True,
+               'exact_arith': True}}
